@@ -216,6 +216,15 @@ func genC03(t *rapid.T, tier string) (*World, any) {
 		}, "cyc")
 		cw.W.Put(p, cw.W.Files[p].Text+extra)
 	}
+	// two exclude files of one directive that define the same name differently: which definition the second one sees is fixed by the order written
+	if chance(t, 12, "excl-defs") {
+		tgt := cw.Targets[0]
+		p := "crs/regex-assembly/" + tgt + ".ra"
+		cw.W.Put("crs/regex-assembly/include/excinc.ra", "runs\nrunes\nrunx\n")
+		cw.W.Put("crs/regex-assembly/exclude/exd1.ra", "##!> define sfx s\nrun{{sfx}}\n")
+		cw.W.Put("crs/regex-assembly/exclude/exd2.ra", "##!> define sfx es\nrun{{sfx}}\n")
+		cw.W.Put(p, cw.W.Files[p].Text+"##!> include-except excinc "+pick(t, []string{"exd1 exd2", "exd2 exd1", "exd1 exd2 exd1"}, "exdorder")+"\n")
+	}
 	params := &C03Params{}
 	target := pick(t, cw.Targets, "target")
 	cmdKinds := []string{"generate", "generate-stdin", "update", "update-all", "compare", "compare-all", "compare-gh", "format", "format-all", "format-check"}
